@@ -295,7 +295,7 @@ func TestVerifCrash(t *testing.T) {
 	// also the database file before anything was committed to it (created, no buckets)
 	for k := -1; k < len(commits); k++ {
 		for _, verify := range []bool{false, true} {
-			img := filepath.Join(dir, "work.db")
+			img := filepath.Join(dir, fmt.Sprintf("work_%d_%v.db", k, verify)) // a fresh name: a hung verification keeps its file locked
 			after := "created-empty"
 			if k >= 0 {
 				if err := vcCopy(filepath.Join(dir, fmt.Sprintf("crash_%d.db", k)), img); err != nil {
@@ -320,10 +320,11 @@ func TestVerifCrash(t *testing.T) {
 				_ = vcCopy(img, filepath.Join(dir, fmt.Sprintf("crash2_%d.db", j)))
 			}
 			chk, ms, rs, fin, left := vcRun(t, img, cfg, steps, verify, pub, hook)
+			os.Remove(img + ".done")
 			_ = enc.Encode(vcRec{Fn: "crash", Plan: []int{k}, After: []string{after}, Verify: verify, Check: chk, CheckMs: ms, Restart: rs, Final: fin, Expected: expected, Commits: commits, StepsLeft: left})
 			if depth >= 2 && !verify {
 				for j := range commits2 {
-					img2 := filepath.Join(dir, "work2.db")
+					img2 := filepath.Join(dir, fmt.Sprintf("work2_%d_%d.db", k, j))
 					if err := vcCopy(filepath.Join(dir, fmt.Sprintf("crash2_%d.db", j)), img2); err != nil {
 						t.Fatal(err)
 					}
